@@ -1,7 +1,7 @@
 /* C16 harnesses: audio port (src/btdmp.cpp, src/btdmp.h) */
 #include "btdmp_types.h"
 #include "btdmp_spec.h"
-#include "btdmp.h"
+#include "btdmp_contracts.h"
 #include "common.h"
 int verif_outcome;
 int ghost_btdmp_irq;
